@@ -1205,6 +1205,172 @@ def deque_to_index(fn, log=None, where=""):
     return True
 
 
+def known_modules():
+    return set(_lines("known_modules.txt"))
+
+
+def merge_new_modules(modules, known_funcs, log):
+    """A module that did not exist when the rules were written and now holds definitions a known module of the same package
+    used to hold (the known module imports them back: `from .tokens import QList, ...`) is merged back into that module:
+    its body takes the place of the import; other importers are pointed at the known module."""
+    km = known_modules()
+    kc = set(known_constants())
+    for name in sorted(m for m in modules if m not in km):
+        N = modules[name]
+        pkg = name.rsplit(".", 1)[0] if "." in name else ""
+        defined = {st.name for st in N.tree.body if isinstance(st, (ast.FunctionDef, ast.AsyncFunctionDef, ast.ClassDef))}
+        defined |= {t.id for st in N.tree.body if isinstance(st, (ast.Assign, ast.AnnAssign)) for t in (st.targets if isinstance(st, ast.Assign) else [st.target]) if isinstance(t, ast.Name)}
+        home, best = None, 0
+        for mname, M in modules.items():
+            if mname == name or mname not in km or (mname.rsplit(".", 1)[0] if "." in mname else "") != pkg:
+                continue
+            imp = [st for st in M.tree.body if isinstance(st, ast.ImportFrom) and st.level == 1 and st.module == name.rsplit(".", 1)[-1]]
+            if not imp:
+                continue
+            owned = sum(1 for d in defined if any(q == f"{mname}.{d}" or q.startswith(f"{mname}.{d}.") for q in known_funcs) or f"{mname}:{d}" in kc)
+            if owned > best:
+                home, best = mname, owned
+        if home is None:
+            # a private helper module used by exactly one known module of the package
+            users = [mn for mn, M_ in modules.items() if mn != name and any(isinstance(st, ast.ImportFrom) and ((st.level == 1 and st.module == name.rsplit(".", 1)[-1] and (mn.rsplit(".", 1)[0] if "." in mn else "") == pkg) or st.module == name) for st in ast.walk(M_.tree))]
+            if len(users) == 1 and users[0] in km and (users[0].rsplit(".", 1)[0] if "." in users[0] else "") == pkg:
+                home = users[0]
+        if home is None:
+            continue
+        M = modules[home]
+        body = []
+        for st in N.tree.body:
+            if isinstance(st, ast.ImportFrom) and st.level == 1 and st.module == home.rsplit(".", 1)[-1]:
+                continue  # circular import back into the home module
+            if isinstance(st, ast.Expr) and isinstance(st.value, ast.Constant) and isinstance(st.value.value, str):
+                continue
+            if isinstance(st, (ast.Assign,)) and any(isinstance(t, ast.Name) and t.id in ("logger", "__all__") for t in st.targets):
+                continue
+            body.append(st)
+        newbody, done = [], False
+        for st in M.tree.body:
+            if isinstance(st, ast.ImportFrom) and st.level == 1 and st.module == name.rsplit(".", 1)[-1]:
+                if not done:
+                    newbody += body
+                    done = True
+                continue
+            newbody.append(st)
+        M.tree.body = newbody
+        ast.fix_missing_locations(M.tree)
+        for other in modules.values():
+            for st in ast.walk(other.tree):
+                if isinstance(st, ast.ImportFrom) and st.module is not None and (st.module == name or (st.level == 1 and st.module == name.rsplit(".", 1)[-1] and (other.name.rsplit(".", 1)[0] if "." in other.name else "") == pkg)):
+                    st.module = home if st.level == 0 else home.rsplit(".", 1)[-1]
+        del modules[name]
+        log.append(f"new module {name} merged back into {home} ({best} known definitions)")
+
+
+def fold_new_bases(modules, known_funcs, log):
+    """A base class / mixin that did not exist when the rules were written, defined in the same module as a known class that
+    inherits from it, is folded back: its methods and class-level constants are copied into the subclass (first base wins,
+    the subclass's own definitions win over all), class-level string / number constants read through self / cls in the copied
+    methods are replaced by the subclass's values, and the base is dropped from the bases list."""
+    known_cls = {q.rsplit(".", 2)[0] + "." + q.rsplit(".", 2)[1] for q in known_funcs if q.count(".") >= 2}
+    for mi in modules.values():
+        classes = {st.name: st for st in mi.tree.body if isinstance(st, ast.ClassDef)}
+
+        def is_known(cn):
+            return f"{mi.name}.{cn}" in known_cls
+
+        def members(cn, seen=()):
+            """own members first, then those of unknown bases (in base order)"""
+            c = classes[cn]
+            out = [x for x in c.body if isinstance(x, (ast.FunctionDef, ast.AsyncFunctionDef, ast.Assign, ast.AnnAssign))]
+            for b in c.bases:
+                bn = ast.unparse(b)
+                if bn in classes and not is_known(bn) and bn not in seen:
+                    out += members(bn, seen + (cn,))
+            return out
+
+        folded = set()
+        for cn, c in list(classes.items()):
+            if not is_known(cn):
+                continue
+            newb = [b for b in c.bases if ast.unparse(b) in classes and not is_known(ast.unparse(b))]
+            if not newb:
+                continue
+            own_names = set()
+            for x in c.body:
+                if isinstance(x, (ast.FunctionDef, ast.AsyncFunctionDef)):
+                    own_names.add(_fname(x))
+                elif isinstance(x, ast.Assign):
+                    own_names |= {t.id for t in x.targets if isinstance(t, ast.Name)}
+                elif isinstance(x, ast.AnnAssign) and isinstance(x.target, ast.Name):
+                    own_names.add(x.target.id)
+            add = []
+            for b in newb:
+                for x in members(ast.unparse(b)):
+                    nm = _fname(x) if isinstance(x, (ast.FunctionDef, ast.AsyncFunctionDef)) else (x.targets[0].id if isinstance(x, ast.Assign) and isinstance(x.targets[0], ast.Name) else x.target.id if isinstance(x, ast.AnnAssign) and isinstance(x.target, ast.Name) else None)
+                    if nm is None or nm in own_names:
+                        continue
+                    own_names.add(nm)
+                    add.append(ast.parse(ast.unparse(x)).body[0])
+                    for y in ast.walk(add[-1]):
+                        if hasattr(y, "lineno"):
+                            pass
+                    ast.copy_location(add[-1], x)
+                    for src_n, dst_n in zip(ast.walk(x), ast.walk(add[-1])):
+                        if hasattr(src_n, "lineno") and hasattr(dst_n, "lineno"):
+                            dst_n.lineno, dst_n.col_offset = src_n.lineno, src_n.col_offset
+                            dst_n.end_lineno, dst_n.end_col_offset = getattr(src_n, "end_lineno", src_n.lineno), getattr(src_n, "end_col_offset", src_n.col_offset)
+                folded.add(ast.unparse(b))
+                stack_ = [ast.unparse(b)]
+                while stack_:
+                    cur_ = stack_.pop()
+                    for bb in classes[cur_].bases:
+                        bbn = ast.unparse(bb)
+                        if bbn in classes and not is_known(bbn) and bbn not in folded:
+                            folded.add(bbn)
+                            stack_.append(bbn)
+            # remaining bases: the unknown bases' own (known / external) bases are inherited instead
+            keep = []
+            for b in c.bases:
+                bn = ast.unparse(b)
+                if bn in classes and not is_known(bn):
+                    for bb in classes[bn].bases:
+                        if ast.unparse(bb) not in [ast.unparse(k) for k in keep] and not (ast.unparse(bb) in classes and not is_known(ast.unparse(bb))) and ast.unparse(bb) not in ("object",):
+                            keep.append(bb)
+                elif bn not in [ast.unparse(k) for k in keep]:
+                    keep.append(b)
+            c.bases = keep
+            c.body = [x for x in c.body if not isinstance(x, ast.Pass)] + add or [ast.Pass()]
+            # class-level literal constants of the subclass read through self / cls in the folded methods
+            consts = {}
+            for x in c.body:
+                if isinstance(x, ast.Assign) and len(x.targets) == 1 and isinstance(x.targets[0], ast.Name) and isinstance(x.value, ast.Constant) and isinstance(x.value.value, (str, int, float)) and not isinstance(x.value.value, bool):
+                    consts[x.targets[0].id] = x.value
+            stored = {y.attr for x in c.body for y in ast.walk(x) if isinstance(y, ast.Attribute) and isinstance(y.ctx, ast.Store)}
+            if consts:
+                class R(ast.NodeTransformer):
+                    def visit_Attribute(self, n):
+                        self.generic_visit(n)
+                        if isinstance(n.ctx, ast.Load) and isinstance(n.value, ast.Name) and n.value.id in ("self", "cls") and n.attr in consts and n.attr not in stored and n.attr.startswith("_"):
+                            return ast.copy_location(ast.Constant(value=consts[n.attr].value), n)
+                        return n
+
+                for x in add:
+                    R().visit(x)
+            log.append(f"new base class(es) {[ast.unparse(b) for b in newb]} folded into {mi.name}.{cn} ({len(add)} members)")
+        while folded:
+            # a folded base goes away unless something other than folded bases still refers to it
+            still = {ast.unparse(b) for st in mi.tree.body if isinstance(st, ast.ClassDef) and st.name not in folded for b in st.bases} | {x.id for st in mi.tree.body if not (isinstance(st, ast.ClassDef) and st.name in folded) for x in ast.walk(st) if isinstance(x, ast.Name)}
+            gone = {f for f in folded if f not in still}
+            if not gone:
+                break
+            mi.tree.body = [st for st in mi.tree.body if not (isinstance(st, ast.ClassDef) and st.name in gone)]
+            folded -= gone
+            # unknown bases of the removed classes that were only inherited through them are folded classes too
+            for st in list(mi.tree.body):
+                pass
+            break
+        ast.fix_missing_locations(mi.tree)
+
+
 def recover_moved_methods(modules, known_funcs, log):
     """A known method Cls.m that is gone, while its module now has an unknown module-level function m with the method's
     parameters minus `self` (the method never used self and was moved out of the class): the function is put back as
@@ -1264,7 +1430,7 @@ def classmethod_constructors(modules, log):
                 c0 = fn.args.args[0].arg
                 uses = [x for x in ast.walk(fn) if isinstance(x, ast.Name) and x.id == c0]
                 calls = [x for x in ast.walk(fn) if isinstance(x, ast.Call) and isinstance(x.func, ast.Name) and x.func.id == c0]
-                if not uses or len(uses) != len(calls):
+                if len(uses) != len(calls):
                     continue
                 for x in calls:
                     x.func.id = cls.name
@@ -1850,6 +2016,8 @@ def peewee_shortcuts(modules, log):
 def run(modules, known_funcs):
     """normalise all module trees in place; returns the list of rewrites performed"""
     log = []
+    merge_new_modules(modules, known_funcs, log)
+    fold_new_bases(modules, known_funcs, log)
     recover_renames(modules, known_funcs, log)
     drop_local_annotations(modules, log)
     expand_descriptors(modules, log)
